@@ -1,4 +1,74 @@
-import XPathV.Model.Api
-/-! # Property C16 — theorems (placeholder header; filled in below) -/
+import XPathV.Lemmas.CacheProofs
+import XPathV.Lemmas.Facts
+/-!
+# C16 — the pattern cache is exact, bounded, does not remember failed loads, for every schedule
+
+The model `XPathV.Model.Cache` splits `loadingCache.get` into the atomic sections its locks
+delimit; `Generated.evictCond` is re-translated from `cache.go` on every run.  The regex part of
+the property (matches/replace = Go regexp) has no Lean content: Go's `regexp` is the oracle and is
+compared directly by the harness (kind `regex`).
+-/
 namespace XPathV.Theorems.C16
+open XPathV.Model.Cache XPathV
+
+/-- initial system: empty cache, any list of pending `get`s (one thread each) -/
+def initSys (keys : List Key) : Sys := { c := { m := [], resets := 0 }, ts := keys.map .start }
+
+theorem init_inv (cap : Nat) (load : Key → Option Val) (keys : List Key) : Inv cap load (initSys keys) := by
+  refine ⟨by simp [initSys], by simp [initSys], ?_⟩
+  intro pc h
+  simp only [initSys, List.mem_map] at h
+  obtain ⟨k, _, rfl⟩ := h
+  trivial
+
+/-- **exactness**: in every state reachable under any interleaving of any number of concurrent
+`get`s, every stored entry is `(k, load k)` -/
+theorem cache_exact (cap : Nat) (load : Key → Option Val) (keys : List Key) (sched : List Nat) :
+    ∀ kv ∈ (run cap load (initSys keys) sched).c.m, load kv.1 = some kv.2 :=
+  (run_inv cap load _ sched (init_inv cap load keys)).1
+
+/-- **boundedness**: with a positive capacity the cache never holds more than `cap` entries
+(this is the `>=` boundary of `evictCond`: with `>` the proof of `store_len` fails) -/
+theorem cache_bounded (cap : Nat) (load : Key → Option Val) (keys : List Key) (sched : List Nat) (h : cap > 0) :
+    (run cap load (initSys keys) sched).c.m.length ≤ cap :=
+  (run_inv cap load _ sched (init_inv cap load keys)).2.1 h
+
+/-- every value a finished `get` returned is a genuine `load` result -/
+theorem cache_returns_loaded (cap : Nat) (load : Key → Option Val) (keys : List Key) (sched : List Nat) :
+    ∀ v, PC.done (some v) ∈ (run cap load (initSys keys) sched).ts → ∃ k, load k = some v := by
+  intro v hv
+  have := (run_inv cap load _ sched (init_inv cap load keys)).2.2 _ hv
+  exact this v rfl
+
+/-- failed loads are not remembered (sequential form) -/
+theorem cache_no_error_memo (cap : Nat) (load : Key → Option Val) (c : Cache) (k : Key)
+    (hmiss : c.lookup k = none) (hfail : load k = none) : get cap load c k = (c, none) :=
+  failed_load_not_stored cap load c k hmiss hfail
+
+theorem cache_hit (cap : Nat) (load : Key → Option Val) (c : Cache) (k : Key) (v : Val)
+    (h : c.lookup k = some v) : get cap load c k = (c, some v) := hit_returns_stored cap load c k v h
+
+theorem cache_miss_loads (cap : Nat) (load : Key → Option Val) (c : Cache) (k : Key) (v : Val)
+    (hmiss : c.lookup k = none) (hl : load k = some v) : (get cap load c k).2 = some v :=
+  miss_returns_load cap load c k v hmiss hl
+
+theorem cache_unbounded_when_zero (c : Cache) (k : Key) (v : Val) : (c.store 0 k v).resets = c.resets :=
+  unbounded_when_zero c k v
+
+/-- T0 (F11): the statement skeleton and the lock pairing of `get` are the modelled ones -/
+theorem get_skeleton_ok :
+    Generated.evictCondKnown = true ∧
+    Generated.getSkeleton = ["RLock", "lookup", "RUnlock", "if-found-return", "load", "if-err-return-nil-err", "Lock", "if-evict", "Unlock", "return-v-nil"] ∧
+    Generated.evictThen = ["m=fresh{key:v}", "reset++"] ∧ Generated.evictElse = ["m[key]=v"] ∧
+    Generated.newCacheRejectsNegative = true ∧
+    Facts.lockedOk Generated.lockedWrites = true := by decide
+
+/-- the regenerated condition is `cap > 0 ∧ len ≥ cap` for all arguments -/
+theorem evict_cond_ok (cap len : Nat) : Generated.evictCond cap len = true ↔ (cap > 0 ∧ len ≥ cap) :=
+  evictCond_spec cap len
+
+/-- non-vacuity: a concrete schedule with two threads racing on one key, a failing key and an eviction -/
+example : (run 2 (fun k => if k == "f" then none else some ("V" ++ k))
+    (initSys ["a", "a", "f", "b", "c"]) [0, 1, 0, 1, 2, 3, 4, 3, 4]).c.m.length ≤ 2 := by decide
+
 end XPathV.Theorems.C16
